@@ -108,6 +108,23 @@ def step (ws : List String) : String :=
   | "rct" :: rest => rctOp rest
   | "tend" :: rest => tendOp rest
   | "range" :: rest => rangeOp rest
+  | ["sop", op, a, b, c] =>
+    -- arguments reach the operation through `from_i32` (truncation to the sample width)
+    match a.toInt?, b.toInt?, c.toInt? with
+    | some a, some b, some c =>
+      let f := fun (sb : Nat) =>
+        let s := fun (v : Int) => Jxl.Modular.sFromI32 sb (Jxl.Modular.wrap 32 v)
+        match op with
+        | "unpack" => some (Jxl.Modular.sUnpack sb (a % 2 ^ 32).toNat)
+        | "add" => some (Jxl.Modular.sAdd sb (s a) (s b))
+        | "muladd" => some (Jxl.Modular.sMulAdd sb (s a) (Jxl.Modular.wrap 32 b) (Jxl.Modular.wrap 32 c))
+        | "grad" => some (Jxl.Modular.wrap sb (Jxl.Modular.gradClamped (s a) (s b) (s c)))
+        | "from" => some (s a)
+        | _ => none
+      match f 16, f 32 with
+      | some n, some w => s!"ok {n} {w}"
+      | _, _ => "bad-op"
+    | _, _, _ => "bad-op"
   | _ => "bad-op"
 
 def main : IO Unit := runLoop () fun _ ws => ((), step ws)
